@@ -28,7 +28,7 @@ def obligations(tier):
     for p in range(8):
         obs.append(Ob(f"C06.by_path.part{p}", "CH", "harness.h_chart", "route_by_path", 600, {"VF_NSEC": 1, "VF_NPARTS": 8, "VF_PART": p},
                       funcs=(CH_ + "Chart.from_filepath", CH_ + "Chart.from_file"),
-                      bounds="Chart.from_filepath on a modelled file (optional UTF-8 BOM, LF/CRLF; documented open()/codec contract): same routing "
+                      bounds="Chart.from_filepath on a modelled file (optional UTF-8 BOM, LF/CRLF; documented open()/codec contract), the library's logger at WARNING or at DEBUG: same routing "
                              "result as without the mark, 6 of the 48 section names x 6 orders x selection; replays use a real file"))
     obs.append(Ob("C06.real_parsers", "CH", "harness.h_chart", "route_real", 600, funcs=(CH_ + "Chart.from_file", "chartparse.instrument.InstrumentTrack.from_chart_lines"),
                   bounds="real section parsers on a concrete chart, symbolic header choice / order / newline style"))
